@@ -428,6 +428,22 @@ def loopio(r):
     return s
 
 
+def deepnest(r):
+    """loops nested 200-700 deep (around 255/256/257 and 511/512 in particular), skipped on a zero
+    cell, entered once, or skipped inside an entered loop: counters of nesting depth must not be
+    narrower than the program allows"""
+    d = r.choice([200, 254, 255, 256, 257, 258, 300, 511, 512, 513, 700])
+    inner = r.choice(['+', '-', '.', '>+<', ''])
+    k = r.below(4)
+    if k == 0:      # skipped
+        return '[' + '[' * d + inner + ']' * d + ']' + '+.'
+    if k == 1:      # entered: the innermost '-' ends every level
+        return '+' + '[' * d + '-' + ']' * d + '+.'
+    if k == 2:      # skipped inside an entered loop, with code after it
+        return '+[-' + '>[' + '[' * d + inner + ']' * d + ']<' + ']' + '++.>.'
+    return ',' + '[' + '[' * d + '-' + ']' * d + ']' + '>+[' + '[' * (d // 2) + '-' + ']' * (d // 2) + ']' + '<.'
+
+
 def mulcounter(r):
     """loops whose own condition cell is updated multiplicatively (x := k*x + c, k != 1, through a
     scratch cell), started from a constant or an input, with or without output in the body, followed
@@ -480,7 +496,7 @@ def shiftif(r):
     return s
 
 
-GENS = {"mulcounter": mulcounter, "tailloop": tailloop, "loopio": loopio, "shiftif": shiftif, "ifnest": ifnest, "uniform": uniform, "nestuse": nestuse, "longrun": longrun, "iopressure": iopressure, "squares": squares, "macro": macro, "pressure": pressure, "affine": affine, "bigconst": bigconst,
+GENS = {"deepnest": deepnest, "mulcounter": mulcounter, "tailloop": tailloop, "loopio": loopio, "shiftif": shiftif, "ifnest": ifnest, "uniform": uniform, "nestuse": nestuse, "longrun": longrun, "iopressure": iopressure, "squares": squares, "macro": macro, "pressure": pressure, "affine": affine, "bigconst": bigconst,
         "roam": roam, "diverge": diverge}
 
 
